@@ -71,6 +71,31 @@ def gen(rng, tier):
                 if not order[-1][1]:
                     continue      # own values must be literals for the fold oracle; the merge:false variant is C10's
                 cases.append(c)
+    # an import that is itself a chain of >= 2 links, layered onto a non-empty running base: a key present only in
+    # some links of the chain (in particular only in a middle link) must still merge key-wise with the earlier import
+    opts = [None, DEEP[0], DEEP[2], DEEP[4]]
+    mk = lambda s: [("o", s)] if s is not None else [("k", ("num", "1"))]
+    for sa in (DEEP[0], DEEP[4]):
+        for sc in (None, DEEP[2]):
+            for sd in opts:
+                for sb in opts:
+                    for se in opts + ["absent"]:
+                        leaves = {"A": {"imports": [], "values": mk(sa)}, "d": {"imports": [], "values": mk(sd)},
+                                  "b": {"imports": [], "values": mk(sb)}}
+                        if se == "absent":
+                            forms = [{"c": {"imports": [("d", True), ("b", True)], "values": mk(sc)}}]
+                        else:
+                            leaves["e"] = {"imports": [], "values": mk(se)}
+                            forms = [{"c": {"imports": [("d", True), ("b", True), ("e", True)], "values": mk(sc)}},
+                                     {"c": {"imports": [("b2", True)], "values": mk(sc)},
+                                      "b2": {"imports": [("d2", True)], "values": mk(sb)},
+                                      "d2": {"imports": [("e", True)], "values": mk(sd)}}]
+                        for f in forms:
+                            if not thorough and se != "absent" and not rng.chance(1, 3):
+                                continue
+                            envs = dict(leaves, **f)
+                            envs["R"] = {"imports": [("A", True), ("c", True)], "values": []}
+                            cases.append(G.case_from_graph(envs, "R"))
     # random graphs
     ngraphs = 1500 if thorough else 220
     for _ in range(ngraphs):
